@@ -8,19 +8,19 @@ C = {
  "C02": ("grammar-directed instruction generation with encodings known by construction; assemble/parse round trip; complete sweep of opcodes, enumerants, mask bits, embedded opcodes + random plans (proptest)", "5 (C02)"),
  "C03": ("differential against an independent reference parser R1 over generated modules with stacked byte-level faults, exhaustive truncation positions and negative sweeps (proptest + enumeration)", "5 (C03)"),
  "C04": ("crash search: catch_unwind oracle over generated/mutated modules (byte-level faults and structural variations), pseudo-instructions, raw bytes, embedded-opcode enumeration and decoder scripts (proptest), process-level runs of the rspirv-dis binary on text files and structural variations, plus libFuzzer targets with ASan in the thorough tier", "5 (C04)"),
- "C05": ("model-based testing against the layout automaton R2: exhaustive words up to length 5/6 over the structural alphabet, every opcode in four contexts, random modules with structural faults", "5 (C05)"),
+ "C05": ("model-based testing against the layout automaton R2: exhaustive words up to length 5/6 over the structural alphabet, every opcode in four contexts (also with an operand naming an imported set), random modules with structural faults, modules of up to 10^6 instructions", "5 (C05)"),
  "C06": ("stateful model-based testing of complete Builder histories through call sites generated from the working tree (syn), model R4, assemble/load round trip; per-method sweep of all 1153 emitting methods", "5 (C06)"),
  "C07": ("round trip through an independent text reader R6 + metamorphic neighbour check over generated typed modules", "5 (C07)"),
- "C08": ("exhaustive / boundary enumeration of number->value conversions against the golden snapshot (all 2^32 words per type in the thorough tier), names and aliases", "5 (C08)"),
+ "C08": ("exhaustive / boundary enumeration of number->value conversions against the golden snapshot (all 2^32 words per type in the thorough tier), names and aliases (the golden ones and every alias constant declared in the working tree's sources, read at build time)", "5 (C08)"),
  "C09": ("complete enumeration of all 65536 opcode numbers, table entries and extended-instruction numbers against the golden grammar + well-formedness predicate; generated lookup sequences (numbers related to the previous one, exclusive and concurrent runs) against the same oracle", "5 (C09)"),
- "C10": ("model-based histories of type declarations / typed values / literal consumers against the width model R3 (complete grid + proptest), parse-independence metamorphic check", "5 (C10)"),
+ "C10": ("model-based histories of type declarations / typed values / literal consumers against the width model R3 (complete grid + proptest; histories of up to 10^6 declarations, chains, vocabulary prefixes), parse-independence metamorphic check", "5 (C10)"),
  "C11": ("stateful model-based testing of Decoder request scripts against model R5 (proptest, shrinking)", "5 (C11)"),
  "C12": ("stateful model-based testing of arbitrary Builder call histories against model R4 with observed selection and invariants after every call (proptest, shrinking); runs of 10^5 identical structural calls against the structural rule", "5 (C12)"),
  "C13": ("stateful model-based testing of id allocation and type deduplication against model R4; sweep of every type method, alone and with its id referenced by every decoration / name / typed declaration before the repeated request", "5 (C13)"),
  "C14": ("protocol conformance: scripted consumer answering stop/error at every callback position, callback log compared with the reference parser's event list", "5 (C14)"),
  "C15": ("generated dr::Module values (all present/absent combinations; content-rich modules holding a random half of all sweep instructions) compared with an own field-order traversal and the assembled words", "5 (C15)"),
- "C16": ("complete enumeration 787 opcodes x 12 predicates against hand-written three-valued specification lists; every block-level Builder method called once with a block open", "5 (C16)"),
- "C17": ("differential between reflection, parser and golden grammar over every parameterised enumerant / mask subset; id rewriting and payload conversion round trips over every operand variant", "5 (C17)"),
+ "C16": ("complete enumeration 787 opcodes x 12 predicates against hand-written three-valued specification lists; every block-level Builder method called with a block open in every builder state of a generated family (fresh, after rejected calls, pinned versions, aliased arguments, vocabulary preloads by covering codes)", "5 (C16)"),
+ "C17": ("differential between reflection, parser and golden grammar over every parameterised enumerant / mask subset, under every header version and registered generator id and for every shorter parameter list; id rewriting and payload conversion round trips over every operand variant", "5 (C17)"),
  "C18": ("generated modules inside the supported subset; Debug-tree of the lifted module compared positionally with the data representation", "5 (C18)"),
  "C19": ("stateful model-based testing of Storage against a Vec model over three equality regimes, up to 1.4*10^5 stored values (proptest, shrinking)", "5 (C19)"),
  "C20": ("differential of the spawned rspirv-dis process against the in-process library over generated, mutated, structurally varied, textual and raw files", "5 (C20)"),
